@@ -84,6 +84,11 @@ static int harness_main(int argc, char **argv) {
                 printf("## %s\n", g_scripts[i].id);
                 run_script(&g_scripts[i]);
                 fflush(stdout);
+#ifdef HARNESS_FORK_EACH
+                /* one script per process: no library state survives a script */
+                *g_progress = i + 1;
+                _exit(0);
+#endif
             }
             *g_progress = g_nscripts;
             _exit(0);
@@ -91,6 +96,9 @@ static int harness_main(int argc, char **argv) {
         int st = 0;
         waitpid(pid, &st, 0);
         if (*g_progress >= g_nscripts) break;
+#ifdef HARNESS_FORK_EACH
+        if (WIFEXITED(st) && WEXITSTATUS(st) == 0) { next = *g_progress; continue; }
+#endif
         /* child died inside script *g_progress */
         if (WIFSIGNALED(st)) printf("FAULT signal %d\n", WTERMSIG(st));
         else printf("FAULT exit %d\n", WEXITSTATUS(st));
